@@ -30,7 +30,8 @@ def build(prop=None):
     builtins_model.install(reg)
     mods = sorted(glob.glob(os.path.join(VERIF, 'contracts', '*.py')))
     names = [os.path.basename(m)[:-3] for m in mods if not os.path.basename(m).startswith('_')]
-    order = ['common'] + [n for n in names if n != 'common']
+    first = [n for n in ('common', 'util', 'mm') if n in names]
+    order = first + [n for n in names if n not in first]
     for n in order:
         m = importlib.import_module('contracts.' + n)
         if hasattr(m, 'register'):
